@@ -268,6 +268,19 @@ class Extractor:
                 out += self.block(st.body, t, owner, qn, depth)
                 out += self.block(st.orelse, f, owner, qn, depth)
             return out
+        if isinstance(st, ast.Assert):
+            out = []
+            for s in states:
+                try:
+                    t = self.refine(s, st.test, True)
+                    f = self.refine(s, st.test, False)
+                except AnalysisError:
+                    # an assertion about something outside the field vocabulary: no constraint on fields
+                    t, f = [s], []
+                for bad in f:
+                    self.raises.append((st, "AssertionError", bad, qn))
+                out += t
+            return out
         if isinstance(st, ast.Raise):
             cls = "Exception"
             msgexpr = None
